@@ -192,7 +192,8 @@ def check(model: Model, run: Run) -> None:
     if len(hs) == 1 and isinstance(hs[0].value, ast.Call) and hs[0].value.args:
         inner = hs[0].value.args[0]
         if isinstance(inner, ast.Call) and isinstance(inner.func, ast.Name) and inner.func.id == 'min' and len(inner.args) == 2:
-            ds = sorted(dotted(a) or '' for a in inner.args)
+            nl_ = Loc(model, neg)
+            ds = sorted(nl_.expand(a) for a in inner.args)
             okh = ds == ['self.received_open.hold_time', 'self.sent_open.hold_time']
     run.check(okh, neg.qualname, 'holdtime = %s' % (norm(hs[0].value) if hs else None), neg.loc(hs[0]) if hs else neg.loc(), 'RFC 4271 4.2: the smaller of the two hold times')
     # defaults in __init__
